@@ -67,8 +67,11 @@ def _run_one(args: T.Tuple[str, str, T.Dict[str, T.Any]]) -> T.Dict[str, T.Any]:
         mod = importlib.import_module(f"checks.{prop.lower()}")
         known = {k["key"] for k in load_known() if k.get("property") == prop and k.get("status") == "known"}
         ctx = Ctx(prop, tmp, "quick", 0)
+        ctx.deferred_refusals = []
         try:
             mod.run(ctx)
+            if ctx.deferred_refusals:
+                raise AnalysisError(ctx.deferred_refusals[0])
         except AnalysisError as ex:
             # same policy as the driver: findings decided before a later rule gave up stand
             if entry["kind"] == "fires" and any(f.key not in known for f in ctx.findings):
